@@ -383,13 +383,13 @@ pub fn small_session_strategy(o: SmallOpts) -> BoxedStrategy<SessSpec> {
             0u32..6,             // symbols removed from the last block(s) -> unequal blocks
             prop_oneof![Just(4u16), Just(8), Just(16)],
             0u16..16,            // short last symbol
-            any::<bool>(),       // inband fti
+            (any::<bool>(), any::<bool>()), // in-band FTI, in-band CENC (independent of each other)
             prop_oneof![3 => Just(1u32), 1 => Just(2u32)],
             if o.allow_cenc { prop_oneof![3 => Just(0u8), 1 => 1u8..4].boxed() } else { Just(0u8).boxed() },
             any::<bool>(),
             (0u64..1000, 0u8..8),
         )
-            .prop_map(move |(scheme, b, parity, blocks, fewer, e, short, inband, mtc, cenc, md5, (seed, empty))| {
+            .prop_map(move |(scheme, b, parity, blocks, fewer, e, short, (inband, inband_cenc), mtc, cenc, md5, (seed, empty))| {
                 let mut b = b;
                 let mut blocks = blocks;
                 let mut parity = parity;
@@ -421,8 +421,8 @@ pub fn small_session_strategy(o: SmallOpts) -> BoxedStrategy<SessSpec> {
                 ob.oti = Some(OtiSpec { scheme, e, b, parity, inband_fti: inband, al, nsub: 1 });
                 ob.max_transfer_count = mtc;
                 ob.cenc = cenc;
-                ob.inband_cenc = inband;
-                ob.md5 = md5 || cenc != 0;
+                ob.inband_cenc = inband_cenc;
+                ob.md5 = md5;
                 ob.location = format!("file:///s{}/{}", idx, seed);
                 if cenc != 0 {
                     ob.content.kind = ContentKind::Random;
